@@ -3,17 +3,29 @@
      c19 <perm> <run>      V=<rows|fail> S=<rows|fail>
      rel...                holds           (implementation-only relations)
    <run> = <file>/<file>/..   <file> = run,t0,t1,ext:<ev>;<ev>;..
-   <ev>  = id.kind.vs.serial.ts.in.drift.sd.pulser.out   (vs: decodable by the vertices / scalers binary) *)
+   <ev>  = id.kind.vs.serial.ts.in.drift.sd.pulser.out   (vs: decodable by the vertices / scalers binary)
+           events with wire and pad data have three more fields .seed.ntracks.x_y_z : the last one is the
+           payload of the vertices row (three columns, f64 bit patterns or `-`), passed through untouched.
+   The payload type of the row model is a parameter (Rows.v, Section Rows, Variable P); here it is the
+   list of the column texts. *)
 open Model
 open Common
 
-type ev = { id : n; v : bool; s : bool; serial : n; ts : n; cols : n list }
+type ev = { id : n; v : bool; s : bool; serial : n; ts : n; cols : string list; vcols : string list }
 
 let parse_ev (x : string) : ev =
+  let mk id vs serial ts scal vcols =
+    { id = n_of_string id; v = vs.[0] = '1'; s = vs.[1] = '1'; serial = n_of_string serial;
+      ts = n_of_string ts; cols = List.map (fun c -> n_str (n_of_string c)) scal; vcols }
+  in
   match String.split_on_char '.' x with
   | [ id; _kind; vs; serial; ts; inp; drift; sd; pulser; out ] ->
-      { id = n_of_string id; v = vs.[0] = '1'; s = vs.[1] = '1'; serial = n_of_string serial;
-        ts = n_of_string ts; cols = List.map n_of_string [ inp; drift; sd; pulser; out ] }
+      (* a TRG-only event: the library finds no vertex *)
+      mk id vs serial ts [ inp; drift; sd; pulser; out ] [ "-"; "-"; "-" ]
+  | [ id; _kind; vs; serial; ts; inp; drift; sd; pulser; out; _seed; _ntracks; vtx ] -> (
+      match String.split_on_char '_' vtx with
+      | [ _; _; _ ] as v -> mk id vs serial ts [ inp; drift; sd; pulser; out ] v
+      | _ -> failwith "bad vertex columns")
   | _ -> failwith "bad event"
 
 let parse_file (x : string) =
@@ -27,24 +39,22 @@ let parse_file (x : string) =
       | _ -> failwith "bad file head")
   | _ -> failwith "bad file"
 
-(* the run as the vertices binary (payload: no vertex for TRG-only events) or the scalers binary sees it *)
-let file_for (vertices : bool) (run, t0, t1, ext, evs) : n list file =
+(* the run as the vertices binary (payload: the vertex columns) or the scalers binary (the counters) sees it *)
+let file_for (vertices : bool) (run, t0, t1, ext, evs) : string list file =
   let ev e =
     let dec = if vertices then e.v else e.s in
     { e_id = e.id; e_serial = e.serial;
-      e_dec = (if dec then Some (e.ts, if vertices then [] else e.cols) else None) }
+      e_dec = (if dec then Some (e.ts, if vertices then e.vcols else e.cols) else None) }
   in
   { f_run = run; f_t0 = t0; f_t1 = t1; f_ext = ext; f_events = List.map ev evs }
 
-let show_rows (ncols : int) (r : n list row list res) : string =
+let show_rows (ncols : int) (r : string list row list res) : string =
   match r with
   | Ok rows ->
       let empty = String.concat "," (List.init ncols (fun _ -> "-")) in
       let row (serial, d) =
         match d with
-        | Some (ticks, cols) ->
-            n_str serial ^ "," ^ n_str ticks ^ ","
-            ^ (if cols = [] then empty else String.concat "," (List.map n_str cols))
+        | Some (ticks, cols) -> n_str serial ^ "," ^ n_str ticks ^ "," ^ String.concat "," cols
         | None -> n_str serial ^ ",-," ^ empty
       in
       Printf.sprintf "ok %d:%s" (List.length rows) (String.concat ";" (List.map row rows))
